@@ -25,8 +25,32 @@
     assumption and not mechanised.  The tree returned for child c at a recursive call site is named by the ghost function
     process_association_result(c): the identity of nodes is not part of the claim.
 
-Mutation trials (tools/mutate_and_run.sh cobra/io/sbml.py ...), each NOT verified:
-    see MUTANTS at the end of this module.
+(2) `_check_required` (returns the value when it is a non-empty string; CobraSBMLError otherwise, with the message text
+    "Required attribute '<attribute>' cannot be found or parsed in '<str(sbase)>'." followed by " with id '<id>'", else " with name
+    '<name>'", else " with metaId '...'" for the first of getId / getName / getMetaId the object has and that is non-empty),
+    `_check` (the libsbml return-code convention: never raises, returns None; None -> one error logged, an int other than
+    LIBSBML_OPERATION_SUCCESS -> two errors logged, success / bool / any other class -> nothing; its docstring's "exits with status
+    code 1" is NOT what the code does - stated, not a proved clause), `_create_parameter` against a model of the libsbml calls
+    (key _create_parameter@libsbml: this discharges what contracts/c10_c11_io.py assumed) and the cross-function obligation of
+    `_create_bound`: `_model_to_sbml` creates the five shared parameters under the ids `_create_bound` hands out with
+    config.lower_bound / config.upper_bound / 0 / -inf / +inf (key _model_to_sbml@default-parameters, restricted path: see there).
+(3) `_parse_annotation_info` (regular expression assumed) and the collection logic of `_parse_annotations`: see the section.
+(4) the reader's flux-bound decision sits in the middle of the 500-line `_sbml_to_model` (inside the loop over reactions): there
+    is no way to start the symbolic execution at a statement inside a function without an engine extension - left out.
+
+FINDINGS (reproduced natively with /venv/bin/python against /repo, see the report; the keys in FINDING_KEYS are NOT wired):
+  F1  SId collision, C10 "the SBML validator accepts": reactions "A" (lower bound -5, i.e. not one of the five shared values) and
+      "A_lower_bound": the bound parameter of A gets the id R_A_lower_bound, which is also the SId of the second reaction; libsbml's
+      validator reports "Duplicate 'id' attribute value" (the proof obligation this blocks: `_create_bound` keeps the five shared
+      entries / creates a NEW id - rid + "_" + bound_type is not fresh).
+  F2  `_check_required`, metaId branch: the message quotes getName() (necessarily empty there) instead of getMetaId():
+      "... in '<Species>'. with metaId ''" (key _check_required@intended-message fails on exactly these exits).
+  F3  `_parse_annotations`: "a single string for one identifier, a list for several" does not hold: the same identifier met twice
+      (two qualifiers, or http:// and https:// forms of one uri) gives {'chebi': ['CHEBI:1']}, a list of ONE; the writer then emits
+      one resource and the next read gives 'CHEBI:1' - annotation {'chebi': ['CHEBI:1']} is not preserved by the first round trip
+      (key _parse_annotations@single-string-for-one fails with `sat` on the clause llen >= 2).
+
+Mutation trials (tools/mutate_and_run.sh cobra/io/sbml.py ...), each NOT verified: see MUTANTS at the end of this module.
 """
 import z3
 import cobra  # noqa
@@ -870,3 +894,24 @@ REG.add(Contract(MS, "_parse_annotations", "C10", [("sbase", TRef("SBase"))], [C
 AN_KEYS = ["_parse_annotation_info", "_parse_annotations"]
 FINDING_KEYS.append("_parse_annotations@single-string-for-one")
 ANN_HOOKS = chain_hooks(AN_HOOKS, PI_HOOKS)
+
+
+MUTANTS = """
+ M1  process_association: BoolOp(Or(), ...) -> BoolOp(And(), ...)                       case FbcOr/*: post.2 (sem) and post.5 (operator) unknown
+ M2  process_association: Name(id=f_replace[F_GENE](g_id)) -> Name(id=g_id)             case GeneProductRef,with-F_GENE: post.2, post.4
+ M3  _check_required: `or (value == "")` dropped                                        case value='': expected-CobraSBMLError sat
+ M4  _check_required: " with id '{sbase.getName()}'"                                    case value='': raise#1/post sat
+ M5  _check: `value == LIBSBML_OPERATION_SUCCESS` -> `!=`                               case int:failure: post sat
+ M6  _create_parameter: `if sbo:` -> `if not sbo:`                                      case sbo=str: post.7 sat
+ M7  _create_parameter: setValue(value) -> setConstant(value)                           post.1 (table) sat
+ M8  _model_to_sbml: ZERO_BOUND_ID created with value 1                                 post.6 sat
+ M9  _model_to_sbml: LOWER_BOUND_ID created with max_value                              post.1 sat
+ M10 _model_to_sbml: BOUND_MINUS_INF created with +inf                                  post.7 sat
+ Ma  _parse_annotations: `identifier not in annotation[provider]` tested BEFORE the string is wrapped in a list (substring test
+     on a str: the seeded mutant)                                                       loop#1/inv-preserve.1 sat (an identifier dropped)
+ Mc  _parse_annotations: duplicate test dropped (`if True:`)                            loop#1/inv-preserve.6 sat (duplicates in the list)
+ Md  _parse_annotations: range(1, n)                                                    loop#1/inv-preserve.1 sat
+ Me  _parse_annotations: annotation[identifier] = provider                              loop#1/inv-preserve.1/.3/.4 unknown
+ Mf  _parse_annotation_info: isupper test inverted                                      case match: post.1 sat
+ Mg  _parse_annotation_info: provider not lowered                                       case match: post.1 sat
+"""
